@@ -35,10 +35,24 @@ RULE = (
     "model (`determplan`) replayed on an independent numpy Generator (fold sizes read from a separate _split call). "
     "fasta case = small FASTA (shared / nested / decoy proteins): key order of the real Proteins maps vs the Lean "
     "`determloop` applied to the enumerations of the digested peptide sets observed in this interpreter. "
+    "SECOND PASS: pipeline cases also with subset_max_train and with the six streaming constants set to small primes "
+    "(several chunks everywhere); the returned models fed back - scores only - in EVERY permutation for folds <= 4 "
+    "(sampled in the quick tier for 4 folds) and once more after a save / load_model round trip; rng cases feed the "
+    "models back with a Generator and compare the caller's generator with the pretrained draw plan; "
+    "model-form case = (table, seed, folds, how brew gets its model: model=None | ONE PercolatorModel(rng=other seed) "
+    "object for all runs | one Generator for model and brew | PercolatorModel() without rng [thorough tier, outside the "
+    "quantifier: tallied as rejected]): brew three times in-process under "
+    "different global numpy states and worker counts - cross-validation seed of every fold model (recorded by wrapping "
+    "brew._fit_model), chosen hyper-parameters, coefficients and scores must agree, and the cross-validation seed is "
+    "compared with the generator `determcv` names, the caller's generator with the draw sequence `mainDrawsOf`; "
+    "confidence-seed case = (1-2 small collections, FASTA with / without decoys, tied or continuous scores, rng as int "
+    "or Generator): real assign_confidence twice, every DataFrame/Series.sample call recorded (size, random_state, "
+    "generator state before / after) and compared with `determconf` (which generator, after which earlier shuffles) "
+    "replayed on an independent numpy Generator; result files of the two runs must agree. "
     "distinct = distinct (case, comparison kind); non-trivial = every case"
 )
 HERE = Path(__file__).resolve().parent
-DIMS = ("level_cols", "ncoll", "fasta_decoys", "ties", "ensemble", "cli")
+DIMS = ("level_cols", "ncoll", "fasta_decoys", "ties", "ensemble", "cli", "subset", "small_chunks")
 
 
 def child(params, hashseed):
@@ -68,7 +82,7 @@ def gen_case(rng, dims=None):
                 fmt=rng.choice(["pin", "parquet"]), peps=rng.choice(["qvality", "qvality", "kde_nnls"]),
                 level_cols=levels if "level_cols" in dims else [], ncoll=2 if "ncoll" in dims else 1,
                 fasta_decoys="fasta_decoys" in dims, ties="ties" in dims, ensemble="ensemble" in dims,
-                cli="cli" in dims)
+                cli="cli" in dims, subset="subset" in dims, small_chunks="small_chunks" in dims)
 
 
 def run_case(chk, case, tier):
@@ -89,7 +103,28 @@ def run_case(chk, case, tier):
         ex.shutdown(wait=True)
 
 
+def feedback_scores(case, paths, given, ensemble=False):
+    """brew with a list of trained models and the case's seed: (digest of the scores, fold tags of the returned models)"""
+    import mokapot
+
+    dsets = [mkdata.read_dataset(p) for p in paths]
+    _, ms, sc, _ = mokapot.brew(dsets if len(paths) > 1 else dsets[0], list(given), test_fdr=0.25, folds=case["folds"],
+                                max_workers=case["workers"], rng=case["seed"], ensemble=ensemble)
+    return (c08_child.sha(b"".join(np.ascontiguousarray(np.asarray(x, dtype=float)).tobytes() for x in sc)),
+            [int(m.fold) for m in ms])
+
+
 def _run_case_body(chk, case, tier, report, combos, futs):
+    import mokapot
+
+    sec = chk.extra.setdefault("pipeline_sections_s", {})
+    last = [time.time()]
+
+    def lap(name):
+        now = time.time()
+        sec[name] = round(sec.get(name, 0.0) + now - last[0], 2)
+        last[0] = now
+
     with P.workdir() as wd:
         # (a) twice in the same process, with different global numpy RNG state
         try:
@@ -100,6 +135,7 @@ def _run_case_body(chk, case, tier, report, combos, futs):
         except Exception as e:
             chk.reject("analysis-failed:" + type(e).__name__ + ":" + str(e)[:60])
             return
+        lap("two runs in-process")
         chk.case(None, (case["data_seed"], "same-process"), sample=dict(case=case, digest=d1))
         chk.count("kind", "same-process")
         chk.count("result files per run", len([k for k in d1 if k.startswith(("file", "cli:"))]))
@@ -152,6 +188,55 @@ def _run_case_body(chk, case, tier, report, combos, futs):
                     report("model-order", f"ensemble of the models fed back in order {perm} vs order {perms[0]}",
                            ["scores_ensemble"])
                     return
+        lap("models fed back, full analysis")
+        # (b2) second pass: "in any order" in full — scores only (brew with the given models, nothing else), every
+        # permutation for folds <= 4 (quick tier: 8 of the 24 orders of 4 folds), then once more with the models
+        # saved and loaded again (what `--load_models` does)
+        if perms:
+            allp = list(itertools.permutations(range(case["folds"])))
+            if tier == "quick" and len(allp) > 6:
+                allp = [allp[0]] + chk.rng.sample(allp[1:], 7)
+            ref_ens = None
+            with P.chunk_sizes(**(c08_child.SMALL_CHUNKS if case.get("small_chunks") else {})):
+                for perm in allp:
+                    try:
+                        dg, tags = feedback_scores(case, keep["paths"], [models[i] for i in perm])
+                        ens = feedback_scores(case, keep["paths"], [models[i] for i in perm], True)[0] \
+                            if case.get("ensemble") else None
+                    except Exception as e:
+                        chk.spec_violation("model-feedback-failed", dict(case=case, perm=list(perm),
+                                                                         clause=f"{type(e).__name__}: {e}"[:300]))
+                        return
+                    chk.case(None, (case["data_seed"], "perm-scores", perm))
+                    chk.count("kind", "model-permutation-scores-only")
+                    chk.count("feedback: folds", case["folds"])
+                    if dg != d1["scores"] or tags != list(range(1, case["folds"] + 1)):
+                        report("model-order", f"scores of the models fed back in order {perm} (scores only)",
+                               ["scores" if dg != d1["scores"] else "model_folds"])
+                        return
+                    ref_ens = ens if ref_ens is None else ref_ens
+                    if ens != ref_ens:
+                        report("model-order", f"ensemble of the models fed back in order {perm} vs {allp[0]}",
+                               ["scores_ensemble"])
+                        return
+                loaded = []
+                try:
+                    for i, m in enumerate(models):
+                        m.save(wd / f"model{i}.pkl")
+                        loaded.append(mokapot.load_model(wd / f"model{i}.pkl"))
+                    chk.rng.shuffle(loaded)
+                    dg, tags = feedback_scores(case, keep["paths"], loaded)
+                except Exception as e:
+                    chk.spec_violation("model-feedback-failed", dict(case=case, clause="models saved, loaded and fed "
+                                                                     f"back: {type(e).__name__}: {e}"[:300]))
+                    return
+                chk.case(None, (case["data_seed"], "perm-pickled"))
+                chk.count("kind", "model-feedback-after-save/load")
+                if dg != d1["scores"] or tags != list(range(1, case["folds"] + 1)):
+                    report("model-order", "models saved, loaded and fed back in order "
+                           f"{[int(m.fold) for m in loaded]}", ["scores" if dg != d1["scores"] else "model_folds"])
+                    return
+        lap("models fed back, scores only")
         # (c) fresh interpreters (started above)
         res = []
         for f in futs:
@@ -161,6 +246,7 @@ def _run_case_body(chk, case, tier, report, combos, futs):
                 chk.reject("child-failed:" + str(e)[:160])
                 chk.extra.setdefault("child_failures", []).append(str(e)[:4000])
                 return
+        lap("waiting for the fresh interpreters")
         for (h, w), dg in zip(combos, res):
             chk.case(None, (case["data_seed"], "fresh", h, w))
             chk.count("kind", f"fresh-interpreter hashseed={h} workers={w}")
@@ -227,6 +313,8 @@ def apply_draw(g, d):
         g.choice(list(range(int(d[1]))), int(d[2]), replace=False)
     elif d[0] == "pm":
         g.permutation(np.arange(int(d[1])))
+    elif d[0] == "in":
+        return g.integers(int(d[1]), float(d[2]))       # as model.py:436 calls it (`rng.integers(1, 1e6)`)
     else:
         raise ValueError(d)
 
@@ -264,6 +352,7 @@ def run_rng_case(chk, case):
                                                 subset_max_train=subset)
             log = sorted(SPY["log"], key=lambda x: x["fold"])
             return dict(log=log, caller=gen_state(g) if case["form"] == "generator" else None, caller_id=id(g),
+                        objs=list(models),
                         models=[gen_state(m.rng) for m in models], model_ids=[id(m.rng) for m in models],
                         scores=[np.asarray(s, dtype=float).tobytes() for s in scores])
 
@@ -322,6 +411,47 @@ def run_rng_case(chk, case):
                 chk.corr_break("determplan", dict(case=case, impl=dict(rows=[g[0] for g in got], problems=problems),
                                                   model=plan))
                 return
+        # (c) second pass: the trained models fed back, in the arrival order, with a Generator — the model says that
+        # brew then draws the fold shuffles and nothing else (`mainDraws true`), fits nothing, and returns the given
+        # models in fold order; the scores are those of the run that trained them
+        if not all(m.is_trained for m in base["objs"]):
+            chk.reject("rng-case-models-untrained-feedback-skipped")
+            return
+        plan_p = common.dec(common.driver_batch([common.req("determplan", True, subset, fold_sizes)])[0])
+        given = [base["objs"][f - 1] for f in case["arrival"]]
+        before = [gen_state(m.rng) for m in given]
+        g = np.random.default_rng(case["seed"])
+        SPY["log"], SPY["delay"] = [], {}
+        dsets = [mkdata.read_dataset(p) for p in paths]
+        try:
+            _, ms2, sc2, _ = mokapot.brew(dsets if case["ncoll"] > 1 else dsets[0], given, test_fdr=0.5,
+                                          folds=case["folds"], max_workers=case["workers"], rng=g,
+                                          subset_max_train=subset)
+        except Exception as e:
+            chk.spec_violation("model-feedback-failed", dict(case=case, clause=f"{type(e).__name__}: {e}"[:300]))
+            return
+        chk.count("rng: fed back with a Generator", True)
+        if [np.asarray(x, dtype=float).tobytes() for x in sc2] != base["scores"]:
+            chk.spec_violation("nondeterminism:model-order:scores",
+                               dict(case=case, clause=f"models fed back in fold order {case['arrival']} with the same "
+                                    "seed: scores differ from the run that trained them"))
+            return
+        o = np.random.default_rng(case["seed"])
+        for d in plan_p[0]:
+            apply_draw(o, d)
+        problems = []
+        if plan_p[1] != []:
+            problems.append("the model plans fits for a feed-back run")
+        if gen_state(g) != gen_state(o):
+            problems.append("caller's generator after a feed-back run is not the state after the fold shuffles")
+        if SPY["log"]:
+            problems.append("a fit ran although trained models were given")
+        if [gen_state(m.rng) for m in given] != before:
+            problems.append("the generator of a fed-back model was advanced")
+        if [id(m) for m in ms2] != [id(m) for m in base["objs"]]:
+            problems.append("the returned models are not the given objects in fold order")
+        if problems:
+            chk.corr_break("determplan", dict(case=case, impl=dict(problems=problems), model=plan_p))
 
 
 # ----------------------------------------------------------------------------------------------------------------
@@ -374,7 +504,275 @@ def run_fasta_case(chk, case):
                                           clause="key ORDER is not the enumeration order of the peptide sets"))
 
 
+
+# ----------------------------------------------------------------------------------------------------------------
+# second pass: how brew gets its model (model=None / a model built on a seed / one Generator for both)
+# ----------------------------------------------------------------------------------------------------------------
+FITLOG = {"log": [], "lock": threading.Lock()}
+MODEL_FORMS = ("none", "built", "shared", "unseeded")
+
+
+def gen_modelform_case(rng, form=None, quick=False):
+    return dict(kind="modelform", data_seed=rng.randrange(1 << 30), seed=rng.randrange(1 << 31),
+                folds=rng.choice([2, 3, 3]), form=form or rng.choice(MODEL_FORMS),
+                n_spectra=600 if quick else rng.choice([600, 900]), workers=rng.choice([2, 3]))
+
+
+def run_modelform_case(chk, case):
+    """brew three times in one process with the same seed: the cross-validation seed that every fold model carries
+    into its fit, the hyper-parameters chosen, the coefficients and the scores must agree"""
+    import mokapot
+    import random as pyrandom
+
+    brew_mod = P.mod("mokapot.brew")       # the module (NOT `import mokapot.brew`, which is the function)
+
+    r = pyrandom.Random(case["data_seed"])
+    chk.count("model form", case["form"])
+    chk.count("model form: folds", case["folds"])
+    orig_fit = brew_mod._fit_model
+
+    def recording_fit(train_set, psms, model, fold):
+        rs = getattr(getattr(getattr(model, "estimator", None), "cv", None), "random_state", None)
+        with FITLOG["lock"]:
+            FITLOG["log"].append((fold, int(rs) if isinstance(rs, (int, np.integer)) else rs))
+        return orig_fit(train_set, psms, model, fold)
+
+    shared_model = {}
+
+    def once(k, workers):
+        FITLOG["log"] = []
+        np.random.seed(1000 + k)                       # the global numpy state must not matter
+        ds = mkdata.read_dataset(path)
+        g = None
+        if case["form"] == "none":
+            g = np.random.default_rng(case["seed"])      # a Generator, so that its state after brew can be observed
+            model, rng_arg = None, g
+        elif case["form"] == "built":
+            # ONE model object for the three runs (object re-use: brew must train copies and leave it as it was)
+            if "built" not in shared_model:
+                shared_model["built"] = mokapot.PercolatorModel(rng=case["seed"] + 7)
+            model, rng_arg = shared_model["built"], case["seed"]
+        elif case["form"] == "shared":
+            g = np.random.default_rng(case["seed"])
+            model, rng_arg = mokapot.PercolatorModel(rng=g), g
+        else:
+            model, rng_arg = mokapot.PercolatorModel(), case["seed"]
+        _, models, scores, descs = mokapot.brew(ds, model, test_fdr=0.05, folds=case["folds"], max_workers=workers,
+                                                rng=rng_arg)
+        ests = [m.estimator for m in models]
+        return dict(cv=[x[1] for x in sorted(FITLOG["log"])],
+                    params=[json.dumps(e.get_params().get("class_weight"), sort_keys=True, default=str)
+                            if hasattr(e, "get_params") else None for e in ests],
+                    coefs=c08_child.sha(b"".join(np.asarray(getattr(e, "coef_", [0.0]), dtype=float).tobytes()
+                                                 for e in ests)),
+                    scores=c08_child.sha(b"".join(np.asarray(x, dtype=float).tobytes() for x in scores)),
+                    descs=[bool(x) for x in descs], caller=gen_state(g) if g is not None else None)
+
+    with P.workdir() as wd:
+        df = mkdata.make_psm_table(r, n_spectra=case["n_spectra"], max_per_spectrum=2, n_feat=3, label_enc="pm1",
+                                   optional=("ExpMass",), signal=3.0 if case["n_spectra"] < 800 else 2.5,
+                                   integer_scores=False, good_feats=(0, 1), rowid=False, target_frac=0.75)
+        path = mkdata.write_table(df, wd / "mf.pin")
+        fold_sizes = [[len(x) for x in mkdata.read_dataset(path)._split(case["folds"], np.random.default_rng(0))]]
+        brew_mod._fit_model = recording_fit
+        try:
+            runs = [once(k, w) for k, w in enumerate((1, case["workers"], 1))]
+        except Exception as e:
+            chk.reject("modelform-case-failed:" + type(e).__name__ + ":" + str(e)[:60])
+            return
+        finally:
+            brew_mod._fit_model = orig_fit
+    chk.case(None, ("modelform", case["data_seed"], case["seed"], case["form"]), sample=dict(case=case, run=runs[0]))
+    differing = sorted({k for a in runs[1:] for k in a if a[k] != runs[0][k]})
+    if case["form"] == "unseeded":
+        # the caller built PercolatorModel() and left ITS `rng` parameter (documented as the seed of its training)
+        # open: one generator unseeded, outside "with a fixed seed" — an input outside the quantifier, tallied
+        chk.reject("model-built-without-rng:outside-the-quantifier (runs differ: %s)" % bool(differing))
+        return
+    if differing:
+        chk.spec_violation("nondeterminism:default-model" if case["form"] == "none"
+                           else "nondeterminism:model-form:" + case["form"],
+                           dict(case=case, clause=f"three runs of brew in one process with rng={case['seed']} and the model "
+                                f"given as '{case['form']}' differ in {differing}: cross-validation seeds "
+                                f"{[a['cv'] for a in runs]}, hyper-parameters {[a['params'] for a in runs]}"))
+        return
+    # the model: on which generator the cross-validation seed is drawn, and what brew's generator has drawn before
+    # its fold shuffles
+    src = common.dec(common.driver_batch([common.req("determcv", "default" if case["form"] == "none" else "built")])[0])
+    where, draw, prefix = src[0], src[1], src[2]
+    if where == "entropy":
+        # the model says the seed comes from an unseeded generator, yet three runs agreed
+        chk.corr_break("determcv", dict(case=case, impl=dict(cv=runs[0]["cv"]), model=where,
+                                        clause="the model derives the cross-validation seed from OS entropy, the real "
+                                               "code reproduced it three times"))
+        return
+    o = np.random.default_rng(case["seed"] + 7 if case["form"] == "built" else case["seed"])
+    exp = int(apply_draw(o, draw))
+    problems = []
+    if any(c != exp for c in runs[0]["cv"]) or len(runs[0]["cv"]) != case["folds"]:
+        problems.append(f"cross-validation seed of the fold models {runs[0]['cv']} != first draw of the generator "
+                        f"named by the model ({where}): {exp}")
+    if runs[0]["caller"] is not None:
+        # one Generator for model and brew ('shared'; 'none' once the default model is built on brew's generator): the
+        # constructor's draw first, then brew's own draws (C08_shared_generator_order)
+        o = np.random.default_rng(case["seed"])
+        if case["form"] == "shared":
+            apply_draw(o, draw)
+        # `mainDrawsOf`: for model=None the constructor's draw is part of brew's own sequence
+        plan = common.dec(common.driver_batch([common.req("determplan", case["form"] == "none", False, None,
+                                                           fold_sizes)])[0])
+        if case["form"] == "none" and plan[0][:len(prefix)] != prefix:
+            problems.append("`brewStart` and `mainDrawsOf` disagree about the draws before the fold shuffles")
+        for d in plan[0]:
+            apply_draw(o, d)
+        if runs[0]["caller"] != gen_state(o):
+            problems.append("caller's generator after brew != the draws the model lists (constructor draw, fold shuffles)")
+    if problems:
+        chk.corr_break("determcv", dict(case=case, impl=dict(cv=runs[0]["cv"], problems=problems), model=src))
+
+
+# ----------------------------------------------------------------------------------------------------------------
+# second pass: the seed argument of assign_confidence on its way to the two shuffles of the protein level
+# ----------------------------------------------------------------------------------------------------------------
+def gen_confseed_case(rng, form=None):
+    return dict(kind="confseed", data_seed=rng.randrange(1 << 30), seed=rng.randrange(1 << 31),
+                form=form or rng.choice(["int", "int", "generator", "generator", "omitted"]), ncoll=rng.choice([1, 2, 2]),
+                fasta_decoys=rng.random() < 0.4,
+                ties=rng.random() < 0.5, n_spectra=rng.choice([70, 110]), n_pep=rng.choice([18, 24]),
+                workers=rng.choice([1, 2]))
+
+
+def run_confseed_case(chk, case):
+    import mokapot
+    import pandas as pd
+    import random as pyrandom
+    from pandas.core.generic import NDFrame
+
+    r = pyrandom.Random(case["data_seed"])
+    for k in ("form", "ncoll", "fasta_decoys", "ties"):
+        chk.count("confseed: " + k, case[k])
+    log = []
+    orig_sample = NDFrame.sample
+    # `rng` left out: the documented default of assign_confidence is the int 0 (confidence.py:507)
+    seed_eff = 0 if case["form"] == "omitted" else case["seed"]
+
+    def spy_sample(self, *a, **kw):
+        rs = kw.get("random_state")
+        rec = dict(what=type(self).__name__, n=len(self), rs_type=type(rs).__name__,
+                   rs=int(rs) if isinstance(rs, (int, np.integer)) else id(rs) if rs is not None else None,
+                   before=gen_state(rs) if isinstance(rs, np.random.Generator) else None)
+        try:
+            out = orig_sample(self, *a, **kw)
+            rec["order"] = [int(x) for x in out.index] if isinstance(self, pd.Series) else None
+            return out
+        finally:
+            rec["after"] = gen_state(rs) if isinstance(rs, np.random.Generator) else None
+            log.append(rec)
+
+    with P.workdir() as wd:
+        paths, scores = [], []
+        params = dict(n_pep=case["n_pep"], level_cols=[])
+        for c in range(case["ncoll"]):
+            df = c08_child.make_table(params, r, case["n_spectra"] if c == 0 else max(50, case["n_spectra"] // 2))
+            paths.append(mkdata.write_table(df, wd / f"cs{c}.pin"))
+            sc = df["feat0"].to_numpy(dtype=float)
+            scores.append(np.round(sc * 1.5) if case["ties"] else sc)
+        n_prot = max(3, (3 * case["n_pep"]) // 4)
+        if case["fasta_decoys"]:
+            fasta = c08_child.make_fasta_with_decoys(case["n_pep"], n_prot, wd / "cs.fasta", shared_every=7)
+        else:
+            fasta = mkdata.make_fasta(case["n_pep"], n_prot, wd / "cs.fasta", shared_every=7)
+        prot = mokapot.read_fasta(fasta, missed_cleavages=0, min_length=4)
+        runs = []
+        try:
+            NDFrame.sample = spy_sample
+            for k in range(2):
+                del log[:]
+                np.random.seed(500 + k)
+                g = np.random.default_rng(case["seed"]) if case["form"] == "generator" else case["seed"]
+                out = wd / f"cs_out{k}"
+                out.mkdir()
+                dsets = [mkdata.read_dataset(p_) for p_ in paths]
+                err = None
+                try:
+                    kw = {} if case["form"] == "omitted" else dict(rng=g)
+                    mokapot.assign_confidence(dsets, max_workers=case["workers"], scores=[x.copy() for x in scores],
+                                              descs=[True] * len(paths), dest_dir=out,
+                                              prefixes=[None] if len(paths) == 1 else ["a", "b"][:len(paths)],
+                                              decoys=True, proteins=prot, **kw)
+                except Exception as e:      # a deterministic refusal must be the same refusal in both runs
+                    err = f"{type(e).__name__}: {str(e)[:100]}"
+                runs.append(dict(files={f.name: c08_child.sha(f.read_bytes()) for f in sorted(out.iterdir())}, err=err,
+                                 log=[dict(x) for x in log], caller=g, caller_state=gen_state(g)
+                                 if case["form"] == "generator" else None))
+        finally:
+            NDFrame.sample = orig_sample
+    chk.case(None, ("confseed", case["data_seed"], case["seed"], case["form"]),
+             sample=dict(case=case, shuffles=[(x["what"], x["n"]) for x in runs[0]["log"]], err=runs[0]["err"]))
+    view = lambda o: (o["files"], o["err"], [(x["what"], x["n"], x["before"], x["after"], x["order"]) for x in o["log"]],  # noqa: E731
+                      o["caller_state"])
+    if view(runs[0]) != view(runs[1]):
+        what = [n for n, a, b in zip(("result files", "exception", "shuffles", "caller's generator"), view(runs[0]),
+                                     view(runs[1])) if a != b]
+        chk.spec_violation("nondeterminism:confidence-seed:" + case["form"],
+                           dict(case=case, clause=f"assign_confidence twice with rng={case['form']}({case['seed']}): {what} differ"))
+        return
+    # correspondence with the model: which generator every shuffle draws from, after which earlier shuffles
+    obs = runs[0]
+    if obs["err"] is not None:
+        chk.reject("confseed:" + obs["err"].split(":")[0])
+        return
+    frames = [x for x in obs["log"] if x["what"] == "DataFrame"]
+    rows = [x["n"] for x in frames]
+    chk.count("confseed: shuffles per run", len(obs["log"]))
+    model = common.dec(common.driver_batch([common.req(
+        "determconf", case["fasta_decoys"], "gen" if case["form"] == "generator" else "seed", len(prot.peptide_map),
+        rows)])[0])
+    reqs, final = model
+    problems = []
+    if len(rows) != case["ncoll"]:
+        problems.append(f"{len(rows)} tie-breaking shuffles for {case['ncoll']} collections")
+    if [(("Series" if i % 2 == 0 else "DataFrame") if not case["fasta_decoys"] else "DataFrame", int(q[0][1]))
+            for i, q in enumerate(reqs)] != [(x["what"], x["n"]) for x in obs["log"]]:
+        problems.append("sequence of shuffles (pairing / tie-breaking, sizes)")
+    else:
+        for q, x in zip(reqs, obs["log"]):
+            o = np.random.default_rng(case["seed"])
+            for d in q[1]:
+                apply_draw(o, d)
+            if case["form"] == "generator":
+                if x["rs"] != id(obs["caller"]) or x["before"] != gen_state(o):
+                    problems.append(f"shuffle of {x['n']}: not the caller's generator in the state after {len(q[1])} earlier shuffles")
+                apply_draw(o, q[0])
+                if x["after"] != gen_state(o):
+                    problems.append(f"shuffle of {x['n']}: state after the draw")
+            else:
+                if x["rs_type"] != "int" or x["rs"] != seed_eff or q[1] != []:
+                    problems.append(f"shuffle of {x['n']}: random_state is not the int seed itself (a new generator per call)")
+                elif x["order"] is not None and x["order"] != [int(v) for v in
+                                                               np.random.RandomState(seed_eff).choice(x["n"], size=x["n"], replace=False)]:
+                    problems.append("pairing shuffle is not the first draw of a generator made from the seed")
+        if case["form"] == "generator":
+            o = np.random.default_rng(case["seed"])
+            for d in final:
+                apply_draw(o, d)
+            if obs["caller_state"] != gen_state(o):
+                problems.append("caller's generator after assign_confidence")
+    if problems:
+        chk.corr_break("determconf", dict(case=case, impl=dict(shuffles=[(x["what"], x["n"], x["rs_type"]) for x in obs["log"]],
+                                                               problems=problems[:4]), model=model))
+
+
 def search(chk):
+    # second pass: the cheapest probes first (how brew gets its model, the seed argument of assign_confidence)
+    for form in ("none", "built", "shared") * chk.budget_mult:
+        run_modelform_case(chk, gen_modelform_case(chk.rng, form))
+        if chk.spec_violations:
+            return
+    for _ in range(4 * chk.budget_mult):
+        run_confseed_case(chk, gen_confseed_case(chk.rng))
+        if chk.spec_violations:
+            return
     for _ in range(3 * chk.budget_mult):
         run_case(chk, gen_case(chk.rng), "thorough")
         if chk.spec_violations:
@@ -391,9 +789,12 @@ def main(chk, args):
         chk.finish(build, RULE)
     n = 2 if chk.tier == "quick" else 12
     # every optional dimension is switched on in at least one case of a run (a random split in the quick tier)
-    dims = list(DIMS)
+    dims = list(DIMS[:6])
     chk.rng.shuffle(dims)
-    forced = [dims[:3], dims[3:]] if chk.tier == "quick" else [None] * n
+    new = list(DIMS[6:])
+    chk.rng.shuffle(new)
+    # quick tier: the six dimensions of the first pass split 3 + 3 as before, one second-pass dimension added to each case
+    forced = [dims[:3] + new[:1], dims[3:] + new[1:]] if chk.tier == "quick" else [None] * n
     forced += [None] * (n - len(forced))
     t0 = time.time()
     for i in range(n):
@@ -404,7 +805,18 @@ def main(chk, args):
     t2 = time.time()
     for _ in range(40 if chk.tier == "quick" else 400):
         run_fasta_case(chk, gen_fasta_case(chk.rng))
-    chk.extra["phase_wall_s"] = dict(pipeline=round(t1 - t0, 1), rng=round(t2 - t1, 1), fasta=round(time.time() - t2, 1))
+    t3 = time.time()
+    # second pass: model=None in every run, the other forms sampled
+    # (a model built WITHOUT rng is outside the quantifier: generated in the thorough tier only, and tallied as rejected)
+    forms = ["none", chk.rng.choice(["built", "shared"])] if chk.tier == "quick" else list(MODEL_FORMS) * 3
+    for form in forms:
+        run_modelform_case(chk, gen_modelform_case(chk.rng, form, quick=chk.tier == "quick"))
+    t4 = time.time()
+    # quick tier: each form of the seed argument once (int, Generator, left out)
+    for form in (["int", "generator", "omitted"] if chk.tier == "quick" else [None] * 40):
+        run_confseed_case(chk, gen_confseed_case(chk.rng, form))
+    chk.extra["phase_wall_s"] = dict(pipeline=round(t1 - t0, 1), rng=round(t2 - t1, 1), fasta=round(t3 - t2, 1),
+                                     modelform=round(t4 - t3, 1), confseed=round(time.time() - t4, 1))
     lc = common.leanchecker("C08") if chk.tier == "thorough" else None
     chk.assumptions += [
         "PARTIAL: the theorems carry (i) the inventory obligation: every source of nondeterminism found by the AST "
@@ -416,6 +828,14 @@ def main(chk, args):
         "itself (numpy/sklearn/BLAS/pandas internals) is established by differential execution only",
         "rng cases: the amount of generator state consumed by shuffle/choice/permutation depends only on the sizes "
         "(numpy), so the plan can be replayed on arrays of the same length",
+        "'with a fixed seed' = every seed the API lets the caller fix is fixed: brew(rng=seed) with model=None, with a "
+        "model built as PercolatorModel(rng=seed'), or with one Generator for both. A user-built PercolatorModel() "
+        "whose own rng parameter (documented as the seed of its training) is left at None is outside the quantifier: "
+        "its hyper-parameter search is seeded from OS entropy by the caller's choice; such cases are generated in the "
+        "thorough tier only and tallied under rejected_inputs",
+        "confidence-seed cases: pandas turns an int random_state into a new RandomState per sample() call and uses a "
+        "Generator as it is (pandas.core.common.random_state); DataFrame/Series.sample is observed by wrapping "
+        "NDFrame.sample for the duration of the call",
     ]
     chk.finish(build, RULE, search=search, lc=lc,
                trusted_extra=["tools/gen_repo.py (AST walk -> Generated/Effects.lean)", "sklearn LinearSVC/GridSearchCV, BLAS"])
@@ -433,6 +853,10 @@ def replay(chk, path):
         run_rng_case(chk, case)
     elif kind == "fasta":
         run_fasta_case(chk, case)
+    elif kind == "modelform":
+        run_modelform_case(chk, case)
+    elif kind == "confseed":
+        run_confseed_case(chk, case)
     else:
         run_case(chk, case, "thorough")
     for sig, i in chk.spec_violations:
